@@ -15,6 +15,7 @@ same container before it (reorderings, carry-over reassignments), so the graph s
 import TraitsVerif.Lemmas.LegacyMain
 import TraitsVerif.Lemmas.LegacySource
 import TraitsVerif.Lemmas.LegacyParser
+import TraitsVerif.Lemmas.LegacyGroup
 namespace TraitsVerif.Props.C16
 open TraitsVerif.Model.Legacy
 open TraitsVerif.Model.LisL (regSrc handleSrc eventOf methOf handlerFor)
@@ -454,6 +455,49 @@ theorem C16_remove_stops (N : Name) {h₀ : Heap} (ht : TreeShaped h₀) (ops : 
         (fun op hop => hx op (by simp [hop]))
   obtain ⟨hi, hr⟩ := key ops' _ hinv hreg hops'
   exact (not_registered_calls hi hr op (hne op hop)).2
+
+/-! ### group names `x.[a,b].c`
+
+`Lemmas/LegacyGroup.lean`: a group name is the family of its member chains (`GName.members`), the
+handler's calls are the fan-out over the members (`ListenerGroup.register / unregister` =
+`C16_group_is_source`), every member with its own copy of the later items.  The real
+`ListenerGroup` SHARES the later items between the members (one `active` table per depth); on
+tree-shaped heaps the members' subtrees are disjoint, so this is not observable — that step rests on
+the differential oracle for group names (both real APIs, c16lib), not on a theorem. -/
+
+/-- Final attribute, group names: after any history the legacy handler is called for a change of a
+final attribute of ANY object exactly as the specification of `observe` for the group expression
+demands — once per member chain along which the object is currently reachable. -/
+theorem C16_group_agree (G : GName) {h₀ : Heap} (ht : TreeShaped h₀) (ops : List Op) (o : Nat) (f : Final) :
+    gCalls G h₀ ops (.probe o f) = gSpec G h₀ ops (.probe o f) :=
+  flatMap_congr' (fun N _ => C16_agree N ht ops o f)
+
+/-- Reassignment of a link attribute, group names: reported exactly for the members that follow that
+attribute with a `.` at the object's depth. -/
+theorem C16_group_intermediate (G : GName) {h₀ : Heap} (ht : TreeShaped h₀) (ops : List Op) (op : Op)
+    (hlink : ∀ N ∈ G.members, ∃ m a, mutate (run N (start h₀) ops).h op = some m ∧ m.trait = .link a) :
+    gCalls G h₀ ops op = gSpec G h₀ ops op :=
+  flatMap_congr' (fun N hN => by
+    obtain ⟨m, a, hm, htr⟩ := hlink N hN
+    exact C16_intermediate N ht ops op m a hm htr)
+
+/-- Removal, group names: after `on_trait_change(…, remove=True)` no operation calls the handler. -/
+theorem C16_group_remove_stops (G : GName) {h₀ : Heap} (ht : TreeShaped h₀) (ops ops' : List Op)
+    (hops' : ∀ op ∈ ops', op.isReg = false) (op : Op) (hop : op.isReg = false) :
+    gCalls G h₀ (ops ++ [.unreg] ++ ops') op = [] := by
+  unfold gCalls
+  rw [List.flatMap_eq_nil_iff]
+  intro N _
+  exact (C16_remove_stops N ht ops).2.2 ops' hops' op hop
+
+-- `[child, kids].value`: two member chains; the handler fires for the child and for the list items
+example : (GName.members ⟨[⟨[.child, .kids], true⟩], .value, .src, false⟩).length = 2 := by decide
+example : gCalls ⟨[⟨[.child, .kids], true⟩], .value, .src, false⟩ Heap.init
+    [.setChild 0 true, .setKids 0 2, .reg] (.probe 1 .value) = [(1, .final .value)] := by decide
+example : gCalls ⟨[⟨[.child, .kids], true⟩], .value, .src, false⟩ Heap.init
+    [.setChild 0 true, .setKids 0 2, .reg] (.probe 3 .value) = [(3, .final .value)] := by decide
+example : gCalls ⟨[⟨[.child, .kids], true⟩], .value, .src, false⟩ Heap.init
+    [.setChild 0 true, .setKids 0 2, .reg, .setKids 0 0] (.probe 3 .value) = [] := by decide
 
 /-! ### deferred registrations
 
